@@ -221,6 +221,45 @@ def run(ctx, out):
         pm.write_text(multi, encoding='utf-8')
         if P.from_yaml_all(pm) != [P(i, f'n{i}') for i in range(4)] or P.from_yaml_all(str(pm)) != [P(i, f'n{i}') for i in range(4)]:
             out.violation('C19:yaml_all:path', 'from_yaml_all on a path did not return the four documents', {})
+        # caller TEXT streams of every encoding are left open and usable (pane re-encodes them as UTF-8), for every reader and
+        # writer.  (Binary streams are outside the property: pane wraps them and the wrapper closes them when it is collected.)
+        import gc
+        val = P(7, 'caf\u00e9')
+        enc_file = tmp / 'enc.txt'
+        for enc in ('utf-8', 'latin-1', 'ascii', 'cp1252', 'utf-16'):
+            for fmt in ('json', 'yaml'):
+                n += 2
+                fh = open(enc_file, 'w', encoding=enc)
+                try:
+                    getattr(pio, 'write_' + fmt)(val, fh)
+                    gc.collect()
+                    if fh.closed:
+                        out.violation('C19:stream-closed:write:other-encoding', f"write_{fmt}: the caller's text stream opened with encoding={enc!r} was closed", {'encoding': enc, 'format': fmt})
+                    else:
+                        try:
+                            fh.write('')
+                            fh.flush()
+                        except ValueError:
+                            out.violation('C19:stream-closed:write:other-encoding', f"write_{fmt}: the caller's {enc!r} text stream is unusable after the call", {'encoding': enc, 'format': fmt})
+                finally:
+                    if not fh.closed:
+                        fh.close()
+                enc_file.write_text(getattr(val, 'write_' + fmt)(), encoding='utf-8')
+                fh = open(enc_file, 'r', encoding=enc)
+                try:
+                    for reader in (['from_json'] if fmt == 'json' else ['from_yaml', 'from_yaml_all']):
+                        fh.seek(0) if not fh.closed else None
+                        try:
+                            getattr(pio, reader)(fh, P)
+                        except Exception:
+                            pass          # what is read through a wrong declared encoding is not the point here
+                        gc.collect()
+                        if fh.closed:
+                            out.violation('C19:stream-closed:read:other-encoding', f"{reader}: the caller's text stream opened with encoding={enc!r} was closed", {'encoding': enc, 'reader': reader})
+                            break
+                finally:
+                    if not fh.closed:
+                        fh.close()
         bad = tmp / 'bad.json'
         bad.write_text('{"a": "not an int"}', encoding='utf-8')
         with OpenSpy() as spy:
